@@ -193,6 +193,13 @@ def run_one(t):
     w = World(t, cfg)
     ctx = Ctx(w, sc)
     try:
+        # a quarter of the runs: an earlier transaction on the same handlers (default table), cancelled by the sending
+        # user in half of the cases
+        if t.choose(4, "prelude") == 3:
+            from props.pops import prelude
+
+            prelude(w, cancel_after=[None, 2 + t.choose(12, "prelude cancel after")][t.choose(2, "prelude cancelled")],
+                    idle_ms=[0, 3000][t.choose(2, "prelude idle")])
         # handler table: drawn for every condition of both entities
         configured = {}
         for ent in (w.a, w.b):
@@ -296,7 +303,7 @@ def run_one(t):
             if t.choose(2, "late fd"):
                 fd = FileDataPdu(conf, FileDataParams(file_data=b"\x55" * cfg.eff_seg, offset=cfg.size, segment_metadata=None))
                 w.deliver(w.b, bytes(fd.pack()))
-        bound = 12 * unit + 4000
+        bound = w.clock.t + 12 * unit + 4000  # counted from now (a prelude transaction may have taken time)
 
         def until(w2):
             return w2.clock.t > bound
